@@ -1,5 +1,6 @@
 mod case;
 mod enga;
+mod engb;
 mod flavor;
 mod props;
 mod runner;
@@ -12,14 +13,17 @@ macro_rules! with_prop {
     ($id:expr, $m:ident ! ( $($args:tt)* )) => {
         match $id {
             "C01" => $m!(props::C01, $($args)*),
+            "C02" => $m!(props::C02, $($args)*),
             "C03" => $m!(props::C03, $($args)*),
             "C04" => $m!(props::C04, $($args)*),
             "C05" => $m!(props::C05, $($args)*),
             "C06" => $m!(props::C06, $($args)*),
+            "C07" => $m!(props::C07, $($args)*),
             "C08" => $m!(props::C08, $($args)*),
             "C09" => $m!(props::C09, $($args)*),
             "C10" => $m!(props::C10, $($args)*),
             "C11" => $m!(props::C11, $($args)*),
+            "C12" => $m!(props::C12, $($args)*),
             "C13" => $m!(props::C13, $($args)*),
             "C14" => $m!(props::C14, $($args)*),
             "C15" => $m!(props::C15, $($args)*),
